@@ -3,7 +3,7 @@
    CidEnc.v (UTF-8 and fixed/identity CID encoders), Widths.v (width tables). *)
 From Coq Require Import List NArith ZArith Bool.
 From GoPdf.Base Require Import Bytes.
-From GoPdf.C14 Require Import SimpleEnc CidEnc Widths SimpleEncProofs TextProofs CidEncProofs WidthsProofs.
+From GoPdf.C14 Require Import SimpleEnc CidEnc Widths Encoding SimpleEncProofs TextProofs CidEncProofs WidthsProofs EncodingProofs.
 Import ListNotations.
 Open Scope N_scope.
 
@@ -213,3 +213,105 @@ Theorem cid_text_derivable :
     f_reader_text cm_rev ros_text (f_tounicode cm_rev ros_text s) code = t.
 Proof. exact cid_text_derivable_lemma. Qed.
 Print Assumptions cid_text_derivable.
+
+(* ------------------------------------------------------------------------------------------
+   NewFromCMap with an arbitrary (predefined or embedded) CMap.  [l] is the sequence of
+   (code, CID) pairs cmap.All yields; both tables keep the LAST pair.
+   The unguarded statement "the code -> CID table inverts the CID -> code table" is FALSE when a
+   child CMap re-maps a code of its parent (every predefined -V CMap, UniJIS-UCS2-HW-H): Encode
+   returns a code which the CMap maps to another CID, and the width recorded for the CID is not
+   the width the code reads back with. *)
+Theorem fromcmap_inverse_refuted :
+  exists l c code, tbl_all l c = Some code /\ tbl_rev l code <> c /\
+    (let '(s, r) := fshow (tbl_all l) (finit 1000%Z) c [227; 130; 135] 500%Z in
+     r = Some code /\ ui_cid (fget (tbl_rev l) s code) <> c /\ ui_w (fget (tbl_rev l) s code) = 0%Z).
+Proof. exact fromcmap_inverse_refuted_lemma. Qed.
+Print Assumptions fromcmap_inverse_refuted.
+
+(* guarded: no code occurs twice in cmap.All (every CMap without a re-mapping child) *)
+Theorem fromcmap_first_wins :
+  forall l, NoDup (map fst l) ->
+    (forall c code, tbl_all l c = Some code -> tbl_rev l code = c) /\
+    (forall w0 shown c code t w, c <> 0 -> tbl_all l c = Some code ->
+       first_of c shown = Some (t, w) ->
+       fget (tbl_rev l) (fst (fshow_all (tbl_all l) (finit w0) shown)) code = mkui c w t).
+Proof. exact (fun l ND => conj (fromcmap_inverse_lemma l ND) (fromcmap_first_wins_lemma l ND)). Qed.
+Print Assumptions fromcmap_first_wins.
+
+Example fromcmap_first_wins_hyp :
+  let l := [([0; 65], 34); ([0; 66], 35); ([129; 64], 633)] in
+  NoDup (map fst l) /\ tbl_all l 35 = Some [0; 66] /\ tbl_rev l [129; 64] = 633.
+Proof. cbn zeta. split; [|split; reflexivity]. repeat constructor; cbn; intuition discriminate. Qed.
+
+(* the repaired CID -> code table (only codes the CMap really maps to the CID): every CMap *)
+Theorem fromcmap_sound_first_wins :
+  forall l,
+    (forall c code, tbl_all_sound l c = Some code -> tbl_rev l code = c) /\
+    (forall w0 shown c code t w, c <> 0 -> tbl_all_sound l c = Some code ->
+       first_of c shown = Some (t, w) ->
+       fget (tbl_rev l) (fst (fshow_all (tbl_all_sound l) (finit w0) shown)) code = mkui c w t).
+Proof. exact (fun l => conj (fromcmap_sound_inverse_lemma l) (fromcmap_sound_first_wins_lemma l)). Qed.
+Print Assumptions fromcmap_sound_first_wins.
+
+(* ------------------------------------------------------------------------------------------
+   /Encoding and /Differences.  The four base tables and names.IsValid are arbitrary. *)
+
+(* AsPDFSimple then ExtractSimple gives back the glyph name (or "@") of every mapped code, for
+   every encoding whose names are valid, unless the writer reports errInvalidEncoding *)
+Theorem enc_roundtrip :
+  forall (win mac expert std : N -> gname) (valid : gname -> bool),
+    valid [] = false -> valid at_name = false ->
+    forall e bis c,
+      (forall c', c' < 256 -> e c' <> [] -> e c' <> at_name -> valid (e c') = true) ->
+      as_pdf_simple win mac expert std e bis <> OError ->
+      c < 256 -> e c <> [] ->
+      extract_simple win mac expert std valid (as_pdf_simple win mac expert std e bis) bis c = e c.
+Proof. exact enc_roundtrip_lemma. Qed.
+Print Assumptions enc_roundtrip.
+
+(* Type 3: AsPDFType3 then ExtractType3 gives back the whole encoding *)
+Theorem type3_enc_roundtrip :
+  forall e, (exists c, c < 256 /\ e c <> []) ->
+    exists f, extract_type3 (as_pdf_type3 e) = Some f /\ forall c, c < 256 -> f c = e c.
+Proof. exact type3_roundtrip_closed. Qed.
+Print Assumptions type3_enc_roundtrip.
+
+(* for every reachable encoder state: the /Encoding object built from Simple.Encoding() is never
+   an error, and the reader reconstructs the writer's glyph name for every used code *)
+Theorem encoding_visible :
+  forall (win mac expert std : N -> gname) (valid : gname -> bool) (glyph_name : gid -> gname),
+    valid [] = false -> valid at_name = false ->
+    (forall g, valid (glyph_name g) = true) ->
+    forall nw ops bis c i, let s := final nw ops in
+      find_info c (s_info s) = Some i ->
+      let e := simple_encoding glyph_name s in
+      as_pdf_simple win mac expert std e bis <> OError /\
+      extract_simple win mac expert std valid (as_pdf_simple win mac expert std e bis) bis c = glyph_name (ci_gid i).
+Proof. exact simple_encoding_visible_lemma. Qed.
+Print Assumptions encoding_visible.
+
+Example encoding_visible_hyp :
+  let win := fun c : N => if c =? 65 then [65] else if c =? 66 then [66] else notdef_name in
+  let valid := fun n : gname => match n with [] => false | x :: _ => negb (x =? 64) end in
+  let glyph_name := fun g : gid => if g =? 36 then [65] else [117; 110; 105] in
+  let s := final 0%Z [OEncode 36 [65] 667%Z 65; OEncode 448 [208; 145] 656%Z 17] in
+  let e := simple_encoding glyph_name s in
+  as_pdf_simple win win win win e false = ODict (Some BWin) [DCode 17; DName [117; 110; 105]] /\
+  extract_simple win win win win valid (as_pdf_simple win win win win e false) false 17 = [117; 110; 105] /\
+  extract_simple win win win win valid (as_pdf_simple win win win win e false) false 65 = [65].
+Proof. vm_compute. auto. Qed.
+
+(* text_derivable through the dictionary that is actually written: the reader's glyph names come
+   from the decoded /Encoding object, not from the writer's table *)
+Theorem text_derivable_dict :
+  forall (win mac expert std : N -> gname) (valid : gname -> bool)
+         (name_text : gname -> text) (glyph_name : gid -> gname),
+    valid [] = false -> valid at_name = false ->
+    (forall g, valid (glyph_name g) = true) ->
+    name_text at_name = [] ->
+    forall nw ops sh bis c i, let s := final nw ops in
+      find_info c (s_info s) = Some i ->
+      (sh = WithEncoding -> ci_text i = [] -> name_text (glyph_name (ci_gid i)) = []) ->
+      dict_reader_text win mac expert std valid name_text glyph_name sh s bis c = writer_text s c.
+Proof. exact text_derivable_dict_lemma. Qed.
+Print Assumptions text_derivable_dict.
